@@ -531,10 +531,32 @@ fn cmap4_offset_segments(font: &FontRef) -> usize {
 enum Kind {
     SubsetFailed,
     GlyphSet,
-    Metrics,
+    /// metrics differ at location index (0 = default location)
+    Metrics(usize),
     Outline,
-    Chars,
+    /// character whose mapping is wrong
+    Chars(u32),
     Chain,
+}
+
+/// is `c` covered, in some format-4 subtable of `font`, by a glyph-id-array segment that is not the first
+/// such segment?  (exactly the characters that finding C17:cmap4-id-range-offset-shared-base misroutes)
+fn in_later_offset_segment(font: &FontRef, c: u32) -> bool {
+    let Ok(cm) = font.cmap() else { return false };
+    for rec in cm.encoding_records() {
+        if let Ok(CmapSubtable::Format4(c4)) = rec.subtable(cm.offset_data()) {
+            let mut seen_offset_segment = false;
+            for ((s, e), o) in c4.start_code().iter().zip(c4.end_code()).zip(c4.id_range_offsets()) {
+                if o.get() != 0 {
+                    if seen_offset_segment && (s.get() as u32) <= c && c <= e.get() as u32 {
+                        return true;
+                    }
+                    seen_offset_segment = true;
+                }
+            }
+        }
+    }
+    false
 }
 
 /// Stable class key when the failure is one of the diagnosed defects of /repo; None = per-input key.
@@ -549,8 +571,8 @@ fn classify(af: &AFont, spec: &BTreeSet<u32>, orig: &FontRef, subf: Option<&Font
                 return Some("C17:cmap-dropped-unsupported-encoding-records");
             }
         }
-        Kind::GlyphSet | Kind::Outline | Kind::Metrics => {
-            if !matches!(kind, Kind::Metrics) {
+        Kind::GlyphSet | Kind::Outline | Kind::Metrics(_) => {
+            if !matches!(kind, Kind::Metrics(_)) {
                 let maxd = spec.iter().map(|g| comp_depth(af, *g, &mut vec![])).max().unwrap_or(0);
                 if maxd > 65 {
                     return Some("F-7:glyf-closure-depth-truncation");
@@ -564,17 +586,18 @@ fn classify(af: &AFont, spec: &BTreeSet<u32>, orig: &FontRef, subf: Option<&Font
                 if sf.head().map(|h| h.index_to_loc_format() == 1).unwrap_or(false) && kept_raw_glyf_bytes(orig, spec) >= 0x1FFFF / 2 {
                     return Some("C17:glyf-long-loca-unpadded-glyph-data");
                 }
-                if has(orig, b"HVAR") && !has(sf, b"HVAR") {
+                // HVAR only matters away from the default location
+                if matches!(kind, Kind::Metrics(li) if *li > 0) && has(orig, b"HVAR") && !has(sf, b"HVAR") {
                     return Some("C17:hvar-dropped");
                 }
             }
         }
-        Kind::Chars => {
-            if !af.cmap_ok {
+        Kind::Chars(c) => {
+            if !af.cmap_ok && subf.map(|sf| !has(sf, b"cmap")).unwrap_or(false) {
                 return Some("C17:cmap-dropped-unsupported-encoding-records");
             }
             if let Some(sf) = subf {
-                if cmap4_offset_segments(sf) >= 2 {
+                if in_later_offset_segment(sf, *c) {
                     return Some("C17:cmap4-id-range-offset-shared-base");
                 }
             }
@@ -663,7 +686,7 @@ fn oracle(cx: &OracleCtx, req: &Req, res: &Result<Vec<u8>, String>, st: &mut Sta
             let lo = orig.axes().location(setting.iter().cloned());
             let ls = subf.axes().location(setting.iter().cloned());
             if lo.coords() != ls.coords() {
-                first_fail = Some((Kind::Metrics, json!({"glyph": g, "why": "same user location normalises differently in the subset", "loc": li})));
+                first_fail = Some((Kind::Metrics(li), json!({"glyph": g, "why": "same user location normalises differently in the subset", "loc": li})));
                 break 'outer;
             }
             for (si, size) in sizes.iter().enumerate() {
@@ -671,11 +694,11 @@ fn oracle(cx: &OracleCtx, req: &Req, res: &Result<Vec<u8>, String>, st: &mut Sta
                 let (ao, bo) = metrics(&orig, g, *size, &lo);
                 let (a_s, b_s) = metrics(&subf, ng, *size, &ls);
                 if ao != a_s {
-                    first_fail = Some((Kind::Metrics, json!({"glyph": g, "new": ng, "why": "advance differs", "orig": ao.map(f32::from_bits), "subset": a_s.map(f32::from_bits), "size": si, "loc": li})));
+                    first_fail = Some((Kind::Metrics(li), json!({"glyph": g, "new": ng, "why": "advance differs", "orig": ao.map(f32::from_bits), "subset": a_s.map(f32::from_bits), "size": si, "loc": li})));
                     break 'outer;
                 }
                 if bo != b_s {
-                    first_fail = Some((Kind::Metrics, json!({"glyph": g, "new": ng, "why": "side bearing differs", "orig": bo.map(f32::from_bits), "subset": b_s.map(f32::from_bits), "size": si, "loc": li})));
+                    first_fail = Some((Kind::Metrics(li), json!({"glyph": g, "new": ng, "why": "side bearing differs", "orig": bo.map(f32::from_bits), "subset": b_s.map(f32::from_bits), "size": si, "loc": li})));
                     break 'outer;
                 }
                 if through_notdef {
@@ -712,7 +735,7 @@ fn oracle(cx: &OracleCtx, req: &Req, res: &Result<Vec<u8>, String>, st: &mut Sta
                 let got = scm.map(*c).map(|x| x.to_u32());
                 // a character whose glyph is .notdef may be left unmapped (same meaning)
                 if got != Some(newid(*g)) && !(*g == 0 && got.is_none()) {
-                    report(st, classify(af, &spec, &orig, Some(&subf), &Kind::Chars, ""), "requested character does not map to the renumbered glyph", json!({"char": c, "orig_gid": g, "expected": newid(*g), "got": got}));
+                    report(st, classify(af, &spec, &orig, Some(&subf), &Kind::Chars(*c), ""), "requested character does not map to the renumbered glyph", json!({"char": c, "orig_gid": g, "expected": newid(*g), "got": got}));
                     return;
                 }
             }
@@ -724,7 +747,7 @@ fn oracle(cx: &OracleCtx, req: &Req, res: &Result<Vec<u8>, String>, st: &mut Sta
         let allowed = ru.contains(&c) || og.map(|g| rg.contains(g)).unwrap_or(false);
         let right = og.map(|g| spec.contains(g) && newid(*g) == ng.to_u32()).unwrap_or(false);
         if !allowed || !right {
-            report(st, classify(af, &spec, &orig, Some(&subf), &Kind::Chars, ""), "subset maps a character that was not requested (or to the wrong glyph)", json!({"char": c, "subset_gid": ng.to_u32(), "orig_gid": og}));
+            report(st, classify(af, &spec, &orig, Some(&subf), &Kind::Chars(c), ""), "subset maps a character that was not requested (or to the wrong glyph)", json!({"char": c, "subset_gid": ng.to_u32(), "orig_gid": og}));
             return;
         }
     }
